@@ -78,7 +78,7 @@ var families = []family{
 		return map[string]int{"nmsg": pick(r, 3, 4), "buf": pick(r, 0, 1), "parts": 1, "reterr": pick(r, 0, 1), "brokers": 1}
 	}},
 	{"pcons", "oor", 8, func(r *rand.Rand) map[string]int {
-		return map[string]int{"nmsg": pick(r, 0, 2), "buf": pick(r, 0, 1), "parts": pick(r, 1, 2), "reterr": pick(r, 0, 1), "brokers": 1}
+		return map[string]int{"nmsg": pick(r, 0, 2), "buf": pick(r, 0, 1), "parts": pick(r, 1, 2), "reterr": pick(r, 0, 1), "brokers": 1, "late": pick(r, 0, 1)}
 	}},
 	// consumer group: during join / sync retry / running with claims / during rebalance / coordinator unreachable
 	{"group", "join", 8, func(r *rand.Rand) map[string]int {
@@ -101,6 +101,12 @@ var families = []family{
 	}},
 	{"group", "ctxwait", 16, func(r *rand.Rand) map[string]int {
 		return map[string]int{"np": pick(r, 1, 2), "nmsg": pick(r, 0, 2), "buf": pick(r, 0, 1), "reterr": pick(r, 0, 1), "shared": pick(r, 0, 1)}
+	}},
+	{"group", "offsetfail", 12, func(r *rand.Rand) map[string]int {
+		return map[string]int{"np": pick(r, 1, 2), "nmsg": 2, "buf": pick(r, 0, 1), "reterr": pick(r, 0, 1), "shared": pick(r, 0, 1), "mode": pick(r, 0, 0, 1)}
+	}},
+	{"group", "commitfail", 24, func(r *rand.Rand) map[string]int {
+		return map[string]int{"np": pick(r, 1, 2), "nmsg": pick(r, 2, 4), "buf": pick(r, 0, 1, 4), "reterr": pick(r, 1, 1, 0), "shared": pick(r, 0, 1), "mode": pick(r, 0, 1, 2)}
 	}},
 	{"group", "nocoord", 12, func(r *rand.Rand) map[string]int {
 		return map[string]int{"np": 1, "nmsg": 0, "buf": pick(r, 0, 1), "reterr": pick(r, 0, 1), "shared": pick(r, 0, 1)}
